@@ -23,6 +23,7 @@
 #include <unistd.h>
 
 #include "actors.h"
+#include "msggen.h"
 #include "scenario.h"
 
 namespace httpw {
@@ -34,6 +35,8 @@ using sim::u64;
 struct ReqRec {
     int fd = -1;
     int conn_ord = -1;
+    int conn_id = -1;
+    std::string snap; // canonical form of everything the handler can see of the request
     std::string method, resource, query, body, version;
     std::vector<std::pair<std::string, std::string>> headers; // raw headers, sorted by lower-cased name
     std::vector<std::pair<std::string, std::string>> cookies;
@@ -187,7 +190,11 @@ public:
             ReqRec& rr = w_->requests.back();
             rr.fd = fd;
             for (auto& s : simk::sock_stats())
-                if (s.fd == fd && !s.closed) rr.conn_ord = s.ordinal;
+                if (s.fd == fd && !s.closed) {
+                    rr.conn_ord = s.ordinal;
+                    rr.conn_id = s.conn_id;
+                }
+            rr.snap = msggen::snap_request(req);
             rr.method = method;
             rr.resource = req.resource();
             rr.query = req.query().as_str();
